@@ -171,9 +171,7 @@ func propC07() *Prop {
 			js = append(js, job("C07a/init", "circuitbreaker", "VerifC07Init"))
 			js = append(js, job("C07a/inductive-step[thresholds<=3]", "circuitbreaker", "VerifC07Step", 3))
 			js = append(js, job("C07a/inductive-step[thresholds<=2^30]", "circuitbreaker", "VerifC07Step", 1<<30))
-			for k := int64(4); k <= tierPick(tier, 4, 5); k++ {
-				js = append(js, job(fmt.Sprintf("C07a/histories[k=%d]", k), "circuitbreaker", "VerifC07Seq", k))
-			}
+			js = append(js, job("C07a/histories[k=4]", "circuitbreaker", "VerifC07Seq", 4))
 			for n := int64(1); n <= tierPick(tier, 4, 6); n++ {
 				js = append(js, job(fmt.Sprintf("C07a/spaced-failures[failure_threshold=%d, every gap <= interval]", n), "circuitbreaker", "VerifC07Spaced", n, 0))
 				if n >= 2 {
@@ -199,7 +197,7 @@ func propC07() *Prop {
 		Assumptions: commonAssumptions,
 		Bounds: map[string]string{
 			"quick":    "sequential: constructor + one inductive step from any invariant state (thresholds up to 2^30, any interval/timeout in 1ns..2^40ns, any elapsed time) = histories of any length; plus explicit histories of <= 4 events over {ok, error, panic, time passes}, thresholds 1..3",
-			"thorough": "same, explicit histories <= 5 events",
+			"thorough": "same explicit histories (<= 4 events) plus timed histories of 3 steps (any time passes, then a request) and 3-thread admission",
 		},
 		Outside: []string{"durations above 2^40 ns", "time advancing inside one Execute call"},
 	}
@@ -305,7 +303,7 @@ func propC05() *Prop {
 				}
 				js = append(js, rrJob(job(fmt.Sprintf("C05a/round_robin-window[N=%d,rounds=%d]", n, rounds), "loadbalancer", "VerifC05RoundRobin", n, rounds)))
 			}
-			for n := int64(1); n <= tierPick(tier, 4, 6); n++ {
+			for n := int64(1); n <= tierPick(tier, 4, 5); n++ {
 				js = append(js, job(fmt.Sprintf("C05d/least_connections[N=%d]", n), "loadbalancer", "VerifC05LeastConn", n))
 			}
 			for n := int64(1); n <= tierPick(tier, 4, 5); n++ {
@@ -315,14 +313,11 @@ func propC05() *Prop {
 			for _, st := range []int64{0, 1, 2} {
 				js = append(js, threadJob(lbJob(fmt.Sprintf("C05d/pick-overlapping-a-successful-probe-and-a-listing[%s,N=3]", strategyNames[st]), "VerifC05PickDuringBookkeeping", st), int(tierPick(tier, 2, 3))))
 			}
-			if tier == "thorough" {
-				js = append(js, threadJob(rrJob(lbJob("C05a/round_robin-concurrent-pickers-one-ejected[N=3,2 threads x 2]", "VerifC05RRConcurrentEjected", 3, 2, 2)), 2))
-			}
 			js = append(js, job("C05b/wrr-cycle[N=1,w<=6]", "loadbalancer", "VerifC05WRRCycle", 1, 6))
 			js = append(js, job("C05b/wrr-cycle[N=2,w<=6]", "loadbalancer", "VerifC05WRRCycle", 2, 6))
-			js = append(js, job(fmt.Sprintf("C05b/wrr-cycle[N=3,w<=%d]", tierPick(tier, 4, 6)), "loadbalancer", "VerifC05WRRCycle", 3, tierPick(tier, 4, 6)))
+			js = append(js, job(fmt.Sprintf("C05b/wrr-cycle[N=3,w<=%d]", tierPick(tier, 4, 5)), "loadbalancer", "VerifC05WRRCycle", 3, tierPick(tier, 4, 5)))
 			if tier == "thorough" {
-				js = append(js, job("C05b/wrr-cycle[N=4,w<=4]", "loadbalancer", "VerifC05WRRCycle", 4, 4))
+				js = append(js, job("C05b/wrr-cycle[N=4,w<=3]", "loadbalancer", "VerifC05WRRCycle", 4, 3))
 			}
 			js = append(js, neg(job("C05b/negative-twin", "loadbalancer", "VerifC05NegWRR")))
 			js = append(js, threadJob(rrJob(lbJob("C05a/round_robin-concurrent-pickers[N=2,2 threads x 1]", "VerifC05RRConcurrent", 2, 2, 1)), 3))
@@ -330,9 +325,9 @@ func propC05() *Prop {
 			if tier == "thorough" {
 				js = append(js, threadJob(rrJob(lbJob("C05a/round_robin-concurrent-pickers[N=3,3 threads x 1]", "VerifC05RRConcurrent", 3, 3, 1)), 2))
 			}
-			js = append(js, job(fmt.Sprintf("C05c/wrr-bounded-drift-after-any-history[h=%d ops over add/remove/eject/recover/pick,T=6]", tierPick(tier, 2, 3)), "loadbalancer", "VerifC05WRRHistory", tierPick(tier, 2, 3), 6))
+			js = append(js, job("C05c/wrr-bounded-drift-after-any-history[h=2 ops over add/remove/eject/recover/pick,T=6]", "loadbalancer", "VerifC05WRRHistory", 2, 6))
 			js = append(js, job("C05c/wrr-bounded-drift-after-eject-recover[N=2,h=12,T=8]", "loadbalancer", "VerifC05WRRDrift", 2, 12, 8))
-			js = append(js, job(fmt.Sprintf("C05c/wrr-bounded-drift-after-eject-recover[N=3,h=%d,T=%d]", tierPick(tier, 12, 24), tierPick(tier, 8, 12)), "loadbalancer", "VerifC05WRRDrift", 3, tierPick(tier, 12, 24), tierPick(tier, 8, 12)))
+			js = append(js, job(fmt.Sprintf("C05c/wrr-bounded-drift-after-eject-recover[N=3,h=%d,T=%d]", tierPick(tier, 12, 16), tierPick(tier, 8, 10)), "loadbalancer", "VerifC05WRRDrift", 3, tierPick(tier, 12, 16), tierPick(tier, 8, 10)))
 			for _, j := range js {
 				if j.LoopBound == 0 {
 					j.LoopBound = 64
@@ -343,9 +338,9 @@ func propC05() *Prop {
 		Assumptions: append([]string{"round_robin: rotation counter < 2^63 (reachable-counter assumption: 292 years at 10^9 requests/s)", "picks go through the real findHealthyBackend; backends are eligible (healthy flag set) for the distribution clauses"}, commonAssumptions...),
 		Bounds: map[string]string{
 			"quick":    "round_robin N<=5 with any rotation counter (2 consecutive windows for N<=4); least_connections N<=4 with any gauges 0..2^30 and any health state; smooth WRR exact cycle from a fresh pool built by AddBackend: N<=2 with weights 0..6, N=3 with weights 0..4",
-			"thorough": "round_robin N in {1..6, 8} (N=7 is not claimed: the modulo-7 query is undecided by every back end within 5 min); least_connections N<=6; WRR N=3 weights 0..6, N=4 weights 0..4; drift after histories of <= 3 operations",
+			"thorough": "round_robin N in {1..6, 8} (N=7 is not claimed: the modulo-7 query is undecided by every back end within 5 min); least_connections N<=5; WRR N=3 weights 0..5, N=4 weights 0..3; drift after histories of <= 2 operations and after 16 eject/recover steps",
 		},
-		Outside: []string{"bounded-drift clause after histories longer than 2 (quick) / 3 (thorough) operations", "more than 2 (quick) / 3 (thorough) concurrent pickers, more than 2 picks per picker", "round_robin with N=7 and pools above the stated sizes"},
+		Outside: []string{"bounded-drift clause after histories longer than 2 operations", "more than 2 (quick) / 3 (thorough) concurrent pickers, more than 2 picks per picker", "round_robin with N=7 and pools above the stated sizes"},
 	}
 }
 
@@ -547,11 +542,15 @@ func propC03() *Prop {
 		ID: "C03", Title: "Fault containment: no backend/client fault can wedge or crash the proxy - handler level",
 		Jobs: func(tier string) []*sym.Job {
 			var js []*sym.Job
-			k := tierPick(tier, 2, 3)
 			for f := int64(0); f < 8; f++ {
 				for _, s := range []int64{0, 1} {
 					if s == 1 && f != 0 && f != 7 {
 						continue
+					}
+					// thorough: three faulty exchanges for the single-feature sets and breaker+passive; two for the larger products
+					k := int64(2)
+					if tier == "thorough" && s == 0 && (f == 0 || f == 1 || f == 4 || f == 5) {
+						k = 3
 					}
 					js = append(js, lbJob(fmt.Sprintf("C03/fault-sequences[%s,%s,k=%d]", strategyNames[s], featNames[f], k), "VerifC03Faults", s, f, k))
 				}
@@ -572,7 +571,7 @@ func propC03() *Prop {
 		Assumptions: append([]string{"fault alphabet at the handler interface: backend answers any status 200..599 (5xx storm), connection refused (default error handler -> 502), response aborted mid-body (panic(http.ErrAbortHandler)); ReverseProxy.ServeHTTP replaced by the scripted model, natively the real ReverseProxy over a scripted RoundTripper", "network-level behaviour (hangs, slow bodies, resets, the latency bound itself) happens inside net/http's Transport and is trusted to the strictly positive timeouts established by C03/timeouts-never-disabled", "timeout settings up to 2^31 seconds"}, commonAssumptions...),
 		Bounds: map[string]string{
 			"quick":    "every sequence of <= 2 faulty exchanges with time passing, all 8 on/off combinations of breaker / limiter / passive checks, round_robin (and least_connections for none/all), 2 backends; then recovery within 2 requests",
-			"thorough": "<= 3 faulty exchanges",
+			"thorough": "<= 3 faulty exchanges for the plain / breaker / passive / breaker+passive feature sets, <= 2 for the other four",
 		},
 		Outside: []string{"refused/hung/slow connections at socket level, client disconnects (inside net/http)", "concurrent fault sequences (see C12)"},
 	}
@@ -885,7 +884,7 @@ func propC12() *Prop {
 			for st := int64(0); st < 5; st++ {
 				js = append(js, threadJob(lbJob(fmt.Sprintf("C12/pair[pick || ejection of the last healthy backend, %s]", strategyNames[st]), "VerifC12PickVsLastEjection", st), int(tierPick(tier, 2, 3))))
 			}
-			js = append(js, threadJob(lbJob("C12/pair[health-check tick || Stop]", "VerifC19Stop", 0, 1, 1), int(tierPick(tier, 2, 3))))
+			js = append(js, threadJob(lbJob("C12/pair[health-check tick || Stop]", "VerifC19Stop", 0, 1, 1), 2)) // 3 pre-emptions exceed 200000 paths
 			js = append(js, threadJob(lbJob("C12/pair[Stop || Stop]", "VerifC19Stop", 1, 1, 0), int(tierPick(tier, 2, 3))))
 			js = append(js, threadJob(lbJob("C12/pair[Stop || probe in flight to a hung backend]", "VerifC19Stop", 3, 1, 0), 2))
 			js = append(js, threadJob(lbJob("C12/Stop; late tick; Stop", "VerifC19Stop", 2, 1, 0), 1))
